@@ -105,8 +105,8 @@ def build():
                  "timeout 3000 make -k -j%s 2>&1 | tail -60" % os.environ.get("VERIF_JOBS", "16"), 3100, cwd=COQ)
     failed = re.findall(r"\*\*\* \[Makefile[^\]]*: ([^\]]+\.vo)\] Error", out)
     st["coq"] = {"ok": not failed and "Error" not in out, "failed": failed, "log": out[-4000:]}
-    rc, out = sh("%s/tools/build.sh ocaml 2>&1 | tail -30" % ROOT, 1800)
-    st["ocaml"] = {"ok": os.path.exists(MODEL) and "rror" not in out, "log": out[-3000:]}
+    rc, out = sh("%s/tools/build.sh ocaml 2>&1 | tail -30; exit ${PIPESTATUS:-0}" % ROOT, 1800)
+    st["ocaml"] = {"ok": os.path.exists(MODEL) and not re.search(r"^(Error|File )|rror:", out, re.M), "log": out[-3000:]}
     rc, out = sh("%s/tools/build.sh harness 2>&1 | tail -40" % ROOT, 1800)
     st["harness"] = {"ok": rc == 0 and os.path.exists(HARNESS), "log": out[-3000:]}
     st["wall_s"] = round(time.time() - t0, 2)
@@ -372,7 +372,7 @@ def pipeline(seed, tier):
     for p, m in gen.gen_chains_random(seed + 1, sz["chains"]) + gen.gen_chains_exhaustive(seed + 2, sz["chain_exh"]):
         batch.append((ser(p), m))
     for p, m in gen.gen_skeletons(sz["skel"]) + (gen.gen_name_triples() if sz["names"] else []) + gen.gen_tiny(sz["tiny"]) \
-            + gen.gen_retmix({"quick": 6, "search": 2}.get(tier, 1)) \
+            + gen.gen_retmix({"quick": 6, "search": 2}.get(tier, 1)) + gen.gen_typeeq() \
             + (gen.gen_deep() if tier == "thorough" else gen.gen_deep()[:1] + gen.gen_deep()[3:4]):
         batch.append((ser(p), m))
     # the same programs as an AST built with Ident::new has them: every identifier at (1, 0)
